@@ -113,17 +113,11 @@ impl PartialOrd for FeelDate {
     if self == other {
       return Some(Ordering::Equal);
     }
-    if let Some(before) = self.before(other) {
-      if before {
-        return Some(Ordering::Less);
-      }
+    if self.0 < other.0 || (self.0 == other.0 && (self.1 < other.1 || (self.1 == other.1 && self.2 < other.2))) {
+      Some(Ordering::Less)
+    } else {
+      Some(Ordering::Greater)
     }
-    if let Some(after) = self.after(other) {
-      if after {
-        return Some(Ordering::Greater);
-      }
-    }
-    None
   }
 }
 
